@@ -1,7 +1,7 @@
 /- Reviewed expectations: a frozen copy of tools/extract output for the tree the model was written against (tools/mk_expected.sh). -/
 namespace Drpc.Expected
 
-def maxFrameOverhead : Nat := 28
+def maxFrameOverhead : Nat := 31
 def httpMaxSize : Nat := 4194304
 def statusErrorSet : Nat := 2
 def statusChannelCreated : Nat := 1
@@ -37,13 +37,13 @@ def fp_drpcwire_reader_Reader_read : List String :=
     "return", "0", "call:drpc.InternalError.Wrap"]
 def fp_drpcwire_reader_Reader_ReadPacketUsing : List String :=
   ["slice", "0", "for", "call:ParseFrame", "switch", "case", "!=", "return", "call:drpc.ProtocolError.Wrap", 
-    "case", "u!", "if", "==", "call:len", "0", "call:append", "slice", "0", "if", "<", "-", "call:cap", 
-    "call:len", "4096", "call:make", "call:len", "+", "*", "2", "call:cap", "4096", "call:copy", 
-    "call:r.read", "slice", "call:len", "call:cap", "if", "!=", "return", "call:uint", "+", "call:len", 
-    "if", ">", "call:uint", "call:cap", "return", "call:drpc.ProtocolError.New", "s:data overflow", 
-    "slice", "if", ">", "-", "call:len", "maxFrameOverhead=28", "return", "call:drpc.ProtocolError.New", 
-    "s:data overflow", "continue", "if", ">", "call:len", "0", "slice", "0", "||", "switch", "case", 
-    "call:fr.ID.Less", "return", "call:drpc.ProtocolError.New", "s:id monotonicity violation (fr:%v r:%v)", 
+    "case", "u!", "if", ">", "-", "call:len", "maxFrameOverhead=31", "return", "call:drpc.ProtocolError.New", 
+    "s:data overflow", "if", "==", "call:len", "0", "call:append", "slice", "0", "if", "<", "-", 
+    "call:cap", "call:len", "4096", "call:make", "call:len", "+", "*", "2", "call:cap", "4096", 
+    "call:copy", "call:r.read", "slice", "call:len", "call:cap", "if", "!=", "return", "call:uint", 
+    "+", "call:len", "if", ">", "call:uint", "call:cap", "return", "call:drpc.ProtocolError.New", 
+    "s:data overflow", "slice", "continue", "if", ">", "call:len", "0", "slice", "0", "||", "switch", 
+    "case", "call:fr.ID.Less", "return", "call:drpc.ProtocolError.New", "s:id monotonicity violation (fr:%v r:%v)", 
     "case", "||", "!=", "==", "slice", "0", "case", "!=", "return", "call:drpc.ProtocolError.New", 
     "s:packet kind change (fr:%v pkt:%v)", "call:append", "switch", "case", ">", "call:len", "return", 
     "call:drpc.ProtocolError.New", "s:data overflow (len:%v)", "call:len", "case", "++", "return"]
